@@ -358,13 +358,13 @@ class SpecArray(object):
         # Condition over which scaling applies
         condition = True
         if hs_min != -np.inf or hs_max != np.inf:
-            condition *= ((hs >= hs_min) & (hs <= hs_max)).chunk()
+            condition = condition * ((hs >= hs_min) & (hs <= hs_max)).chunk()
         if tp_min != -np.inf or tp_max != np.inf:
             tp = self.tp()
-            condition *= (tp >= tp_min) & (tp <= tp_max)
+            condition = condition * ((tp >= tp_min) & (tp <= tp_max))
         if dpm_min != -np.inf or dpm_max != np.inf:
             dpm = self.dpm()
-            condition *= (dpm >= dpm_min) & (dpm <= dpm_max)
+            condition = condition * ((dpm >= dpm_min) & (dpm <= dpm_max))
 
         return scaled.where(condition, self._obj)
 
